@@ -15,3 +15,6 @@ func wideLoadAfterShortCheck(dst *byte, src *byte, n int)
 
 //go:noescape
 func cleanCopy16(dst *byte, src *byte)
+
+//go:noescape
+func staleRegisterRead(dst *byte)
